@@ -56,6 +56,7 @@ structure Schema where
   nattrs : Nat                  -- non-pk attributes 0 .. nattrs-1 (Optional(int))
   keys : List (List Nat)        -- `_simple_keys_` (1-element lists, attribute order) followed by `_composite_keys_`
   parent : List (Option Nat)    -- direct base of class i (class 0 is the root)
+  classBitsDiffer : Bool := false   -- some subclass numbers the read/write bits of its base's attributes differently
 deriving Repr
 
 def isSubFuel (parent : List (Option Nat)) : Nat → Nat → Nat → Bool
@@ -238,7 +239,8 @@ def idmapLoaded (sch : Schema) (s : Sess) (cls : Nat) (pk : KeyVal) : Except Err
       if ob.cls = cls then .ok (s, o)
       else if sch.isSub ob.cls cls then .ok (s, o)
       else if !sch.isSub cls ob.cls then .error .classChange
-      else if anyBits sch ob then .error .notImplemented
+      -- `(obj._rbits_ or obj._wbits_) and any(entity._bits_.get(attr) != bit …)`: the bits would mean other attributes
+      else if anyBits sch ob && sch.classBitsDiffer then .error .notImplemented
       else .ok ({ s with obj := setObj s.obj o { ob with cls := cls } }, o)      -- `obj.__class__ = entity`
   | none =>
       let o := s.n
